@@ -982,7 +982,7 @@ func cName(name string, pkgPrefix string) string {
 			underscore = true
 		}
 	}
-	if underscore {
+	if underscore && (len(s) > 0) {
 		s = s[:len(s)-1]
 	}
 	return string(s)
